@@ -218,6 +218,14 @@ impl<'t, 'a> Gen<'t, 'a> {
                 }
                 5 => v.push(Stmt::Comment([" a comment", " build x: phony", "$", ""][self.t.below(4)].to_string())),
                 k => {
+                    // the same file read a second time by the same parent (a template, or shared settings)
+                    let earlier: Vec<usize> = v.iter().filter_map(|s| if let Stmt::Include(i) | Stmt::Subninja(i) = s { Some(*i) } else { None }).collect();
+                    if self.o.children && !earlier.is_empty() && self.t.chance(25) {
+                        let idx = earlier[self.t.below(earlier.len())];
+                        self.features.push("same-file-read-twice");
+                        v.push(if k == 6 { Stmt::Include(idx) } else { Stmt::Subninja(idx) });
+                        continue;
+                    }
                     if self.o.children && depth < 2 && files.len() < 4 {
                         let idx = files.len();
                         files.push(MFile { name: format!("{}{}.ninja", ["sub/child", "inc"][self.t.below(2)], idx), stmts: vec![] });
